@@ -363,6 +363,17 @@ class RefDeser:
             for key in d:
                 e: list = []
                 kv = self.de(s.a[0], key, loc + (key,), (), e)
+                if e and "map_keys_unchecked" in self.relax:
+                    # known finding (schema side): key constraints are not part of the schema;
+                    # under patternProperties a non-matching key is not constrained at all
+                    kb, kcs = s.a[0], ()
+                    while kb.k in ("ann", "newtype"):
+                        kcs += tuple(kb.opt("c") or kb.opt("schema") or ())
+                        kb = kb.a[0]
+                    if "pattern" in dict(kcs):
+                        out[key] = d[key]
+                        continue
+                    e, kv = [], key
                 if e:
                     errs.extend(e)  # value not examined once the key is invalid
                     continue
